@@ -47,9 +47,14 @@ func c13Base(ctx context.Context, r *rand.Rand, t testing.TB, c *c13Comp, depth 
 		return mocrelay.NewDefaultHandler(), "default"
 	case 1:
 		if r.IntN(4) == 0 {
-			// a cache that already holds 70-300 events: a REQ is answered with far more messages
+			// a cache that already holds 70-1000 events: a REQ is answered with far more messages
 			// than any small buffer holds, and the session may end anywhere inside the answer
 			n := 70 + r.IntN(231)
+			if r.IntN(2) == 0 {
+				// several hundred: an answer long enough for any producer that hands it over in
+				// chunks to be caught with most of it still unsent
+				n = 300 + r.IntN(700)
+			}
 			h := mocrelay.NewCacheHandler(n + r.IntN(100))
 			s := vk.StartSession(ctx, h, 0)
 			for i := 0; i < n; i++ {
@@ -60,7 +65,7 @@ func c13Base(ctx context.Context, r *rand.Rand, t testing.TB, c *c13Comp, depth 
 				s.Get()
 			}
 			s.Stop()
-			return h, "cache(70-300 stored)"
+			return h, "cache(70-1000 stored)"
 		}
 		return mocrelay.NewCacheHandler(1 + r.IntN(20)), "cache"
 	case 2:
@@ -194,7 +199,7 @@ func c13Gauges(reg *prometheus.Registry) (conn, req float64, ok bool) {
 
 func TestVerif_C13(t *testing.T) {
 	rep := vk.NewReport(t, "C13", "exploration")
-	rep.Rule = "seeded handler compositions (default, cache - one in four holding 70-300 events already -, router, SQLite, merges of 2-4 of them nested once) wrapped in 0-5 of the provided middlewares (all limit middlewares, both unique filters, allow/deny, quota, logging, Prometheus, NIP-11 chain); a seeded client history is cut at a seeded point (before the first message .. after the last) by {cancel with a draining peer, cancel with a stalled peer, cancel with a peer that read 1-3 messages and then stalled, inbound close with a draining peer}; oracle: ServeNostr returns within the bound (a goroutine parked in mocrelay code is the witness), no goroutine started by mocrelay code during the session survives, router registries are empty again, connection/subscription gauges are back to 0; a router-backlog scenario (subscriber with 2..buffer deliveries queued reads 0-2 of them, stalls and is cancelled; run twice per handler); plus the WebSocket clause: a raw TCP peer that completes the handshake and never reads, handler flooding 60 kB messages, for send timeout x ping interval (incl. disabled) x start delay x {silent peer, peer that keeps sending binary / non-message text frames / valid REQs beyond the burst of a 0.02 per second receive rate limit}: the handler's session must end within 50 x send timeout and Relay.ServeHTTP must return; added later: 25/300 crowds on one router (holders, publishers without pause, sessions opening and closing their only subscription) that are all cancelled: every session returns, the registry is empty; non-trivial = a session with at least one message processed and a non-default base or a middleware; distinct = distinct (composition, ending, cut position bucket)"
+	rep.Rule = "seeded handler compositions (default, cache - one in four holding 70-1000 events already -, router, SQLite, merges of 2-4 of them nested once) wrapped in 0-5 of the provided middlewares (all limit middlewares, both unique filters, allow/deny, quota, logging, Prometheus, NIP-11 chain); a seeded client history is cut at a seeded point (before the first message .. after the last) by {cancel with a draining peer, cancel with a stalled peer, cancel with a peer that read 1-3 messages and then stalled, inbound close with a draining peer}; oracle: ServeNostr returns within the bound (a goroutine parked in mocrelay code is the witness), no goroutine started by mocrelay code during the session survives, router registries are empty again, connection/subscription gauges are back to 0; a router-backlog scenario (subscriber with 2..buffer deliveries queued reads 0-2 of them, stalls and is cancelled; run twice per handler); plus the WebSocket clause: a raw TCP peer that completes the handshake and never reads, handler flooding 60 kB messages, for send timeout x ping interval (incl. disabled) x start delay x {silent peer, peer that keeps sending binary / non-message text frames / valid REQs beyond the burst of a 0.02 per second receive rate limit}: the handler's session must end within 50 x send timeout and Relay.ServeHTTP must return; added later: 25/300 crowds on one router (holders, publishers without pause, sessions opening and closing their only subscription) that are all cancelled: every session returns, the registry is empty; non-trivial = a session with at least one message processed and a non-default base or a middleware; distinct = distinct (composition, ending, cut position bucket)"
 	defer rep.Finish()
 	ctx := context.Background()
 	n := vk.N(600, 12000)
